@@ -14,5 +14,8 @@ Definition run (c : sx) : sx :=
   | L [A 11; arg] => run_q_between arg
   | L [A 12; arg] => run_other true arg
   | L [A 13; arg] => run_other false arg
+  | L [A 14; arg] => run_rule_histories arg
+  | L [A 15; arg] => run_la_histories arg
+  | L [A 16; arg] => run_layer_histories arg
   | _ => sx_err
   end.
